@@ -85,6 +85,14 @@ func Start(prop, level string) *Ctx {
 	if root == "" {
 		root = "/verif"
 	}
+	if os.Getenv("VERIF_CHILD") == "" && !(len(os.Args) > 1 && os.Args[1] == "--replay") {
+		// replay files are witnesses of THIS run: stale ones from earlier runs are removed
+		out := root
+		if o := os.Getenv("VERIF_OUT"); o != "" {
+			out = o
+		}
+		_ = os.RemoveAll(filepath.Join(out, "replays", prop))
+	}
 	return &Ctx{
 		Prop: prop, Level: level, Tier: tier, Seed: seed, Root: root,
 		Child:      os.Getenv("VERIF_CHILD"),
